@@ -258,7 +258,7 @@ pub fn run(ctx: &Ctx) -> i32 {
         salt: 0x0401_0000,
         nshards: 64,
         enumerated: &enumerated,
-        random_cases: tier.pick(6_000_000, 100_000_000),
+        random_cases: tier.pick(6_000_000, 400_000_000),
         build_random: &|e| build(e, &Force::default()),
         classify: &|c, j, t: &Tag, s| classify(c, j, t, s),
         all_quirks: false,
